@@ -1034,6 +1034,7 @@ func main() {
 		writeIfChanged(filepath.Join(*out, "Catalogue.lean"), sb.String())
 		emitDelegation(*repo, *out) // delegation.go
 		emitPipe(*repo, *out)       // pipe.go
+		emitKernel(*repo, *out)
 		js, _ := json.MarshalIndent(facts, "", " ")
 		writeIfChanged(filepath.Join(*out, "catalogue.json"), string(js)+"\n")
 		if err := emitPlugins(*repo, *out); err != nil {
